@@ -516,8 +516,30 @@ class ProgGen:
             a.push(0xE0).op("MSTORE")
             a.op("RETURNDATASIZE").push(0x100).op("MSTORE")
 
+    def create_retry(self, lbl):
+        """CREATE2 whose init code reverts when no value is sent, then the same CREATE2 (salt, init code) again with value 1:
+        the first attempt must leave no trace at the address"""
+        ch, a = self.ch, self.a
+        i = Asm()
+        ok = i.fresh("ok")
+        i.op("CALLVALUE").jumpi(ok)
+        i.push(0).push(0).op("REVERT")
+        i.label(ok)
+        i.push(0).push(0).op("MSTORE8").push(1).push(0).op("RETURN")
+        init = i.assemble()
+        tag = a.fresh("init")
+        self.pending_data = getattr(self, "pending_data", [])
+        self.pending_data.append((tag, init))
+        salt = ch.pick(3, lbl + ".salt")
+        for k, val in enumerate(ch.choose([(0, 1), (0, 0), (1, 1)], lbl + ".vals")):
+            a.push(len(init)).ref(tag).push(0x200).op("CODECOPY")
+            a.push(salt).push(len(init)).push(0x200).push(val).op("CREATE2")
+            a.push(0xE0 + 0x20 * k).op("MSTORE")
+
     def create(self, lbl):
         ch, a = self.ch, self.a
+        if self.f.value_calls and ch.chance(0.15, lbl + ".retry"):
+            return self.create_retry(lbl)
         init = self.world.make_initcode(self.depth_left - 1, lbl)
         op = ch.choose(["CREATE", "CREATE2"], lbl + ".cop")
         # copy the init code from our own code into memory at 0x200
